@@ -23,7 +23,15 @@ ASSUMPTIONS = ['placement by .endpoints(p, q) (the only placement every symbol c
 def translate(program, r: R, render=False, sub='translate'):
     from CircuitCalculator.SimpleCircuit.DiagramTranslator import circuit_translator
     with r.lib(sub):
-        return circuit_translator(schem.build(program, render=render))
+        sch = schem.build(program, render=render)
+        circuit = circuit_translator(sch)
+        if any(it['sym'] == 'ground' for it in program['items']):
+            # the parser's own notion of the reference must be the node the ground symbol sits on
+            from CircuitCalculator.SimpleCircuit.DiagramParser import SchematicDiagramParser
+            gl = SchematicDiagramParser(sch).ground_label
+            if gl != circuit.ground_node:
+                r.fail('parser-ground-label', f'SchematicDiagramParser.ground_label {gl!r}, translated circuit is referenced to {circuit.ground_node!r}')
+        return circuit
     return None
 
 
